@@ -6,6 +6,7 @@
 mod ast;
 mod codec;
 mod driver;
+mod fncases;
 mod gen;
 mod net;
 mod peers;
@@ -17,7 +18,7 @@ use rand::{Rng, SeedableRng};
 use serde_json::{json, Value as J};
 use std::io::{BufRead, BufWriter, Write};
 
-fn arg(args: &[String], name: &str) -> Option<String> {
+pub fn arg(args: &[String], name: &str) -> Option<String> {
     args.iter().position(|a| a == name).and_then(|i| args.get(i + 1)).cloned()
 }
 
@@ -121,6 +122,7 @@ fn main() {
     std::panic::set_hook(Box::new(|_| {}));
     let code = match args.get(1).map(|s| s.as_str()) {
         Some("net") => cmd_net(&args[2..]),
+        Some("fn") => fncases::cmd_fn(&args[2..]),
         _ => {
             eprintln!("usage: aqua-harness net --in <histories.ndjson> --out <trace.ndjson>");
             2
